@@ -115,7 +115,7 @@ func errTag(ex *Exec) int64 {
 }
 
 var purePkgs = []string{"strings.", "strconv.", "unicode.", "unicode/utf8.", "encoding/hex.", "go.uber.org/zap.", "go.uber.org/zap/zapcore.",
-	"reflect.TypeOf", "bytes.Compare", "bytes.Equal", "fmt.Sprintf", "fmt.Sprint", "math/bits.", "path.", "net.ParseIP", "time.Since", "time.Until",
+	"reflect.TypeOf", "crypto/md5.Sum", "bytes.Compare", "bytes.Equal", "fmt.Sprintf", "fmt.Sprint", "math/bits.", "path.", "net.ParseIP", "time.Since", "time.Until",
 	"(time.Duration).", "(time.Time).", "sort.SearchInts", "errors.Is", "errors.Unwrap", "(net.IP).String", "(net.IP).To4", "(net.IP).To16", "(net.IP).Equal", "(*net.IPAddr).String",
 	"(github.com/datastax/go-cassandra-native-protocol/primitive.ProtocolVersion).", "(github.com/datastax/go-cassandra-native-protocol/primitive.ConsistencyLevel).",
 	"(github.com/datastax/go-cassandra-native-protocol/primitive.OpCode).", "(github.com/datastax/go-cassandra-native-protocol/primitive.ErrorCode).",
@@ -209,11 +209,21 @@ func (ex *Exec) lockOp(st *State, fr *Frame, recv Value, mode int, acquire bool,
 		ex.emit(st, "lock", ex.srcLabel(fr.Fn, pos, "acquire-not-held"), BoolLit(cur == 0), pos, []string{"C18", "C01"})
 		st.Locks[key] = mode
 		ex.monitorEnter(st, fr, p, mode, pos)
+		if owner, tn, mu, ok := ex.monitorOwner(p); ok {
+			st.Held = append(st.Held, heldMon{owner, tn, mu, key})
+		}
 		return
 	}
 	ex.emit(st, "lock", ex.srcLabel(fr.Fn, pos, "release-held"), BoolLit(cur == mode), pos, []string{"C18"})
 	ex.monitorExit(st, fr, p, mode, pos)
 	st.Locks[key] = 0
+	var keep []heldMon
+	for _, h := range st.Held {
+		if h.Key != key {
+			keep = append(keep, h)
+		}
+	}
+	st.Held = keep
 }
 
 // guardedFieldsOf finds, for a mutex pointer that is field mu of an object of a type with a type
@@ -279,6 +289,30 @@ func (ex *Exec) monitorEnter(st *State, fr *Frame, p *PtrV, mode int, pos token.
 	ex.assumeTypeInvariant(st, fr, ts, owner, tn)
 }
 
+// restoreHeld: after a havoc caused by a callee that does not re-enter the caller's monitors, the
+// fields guarded by locks this thread holds still have their values (nobody else may write them).
+func (ex *Exec) restoreHeld(st *State, before map[string]*Term) {
+	for _, h := range st.Held {
+		ts := ex.Specs.Types[h.Type]
+		if ts == nil {
+			continue
+		}
+		for f, m := range ts.Guarded {
+			if m != h.Mu {
+				continue
+			}
+			for class, oldH := range before {
+				if class == h.Type+"."+f || strings.HasPrefix(class, h.Type+"."+f+"@") || strings.HasPrefix(class, h.Type+"."+f+".") {
+					cur := st.heapGet(class, oldH.Sort)
+					if cur != oldH && oldH.Sort.Kind == KArr && oldH.Sort.Idx == SInt {
+						st.Heap[class] = Store(cur, h.Owner, Select(oldH, h.Owner))
+					}
+				}
+			}
+		}
+	}
+}
+
 func (ex *Exec) fieldTypeByName(tn, f string) types.Type {
 	parts := strings.SplitN(tn, ".", 2)
 	if len(parts) != 2 {
@@ -301,7 +335,7 @@ func (ex *Exec) fieldTypeByName(tn, f string) types.Type {
 }
 
 func (ex *Exec) assumeTypeInvariant(st *State, fr *Frame, ts *TypeSpec, owner *Term, tn string) {
-	if len(ts.Invariant) == 0 {
+	if len(ts.Invariant) == 0 && len(ts.AssumedInv) == 0 {
 		return
 	}
 	env := ex.typeEnv(st, fr, tn, owner)
@@ -310,6 +344,10 @@ func (ex *Exec) assumeTypeInvariant(st *State, fr *Frame, ts *TypeSpec, owner *T
 	}
 	for _, c := range ts.Invariant {
 		st.assume(ex.evalBool(env, c.Expr))
+	}
+	for _, c := range ts.AssumedInv {
+		st.assume(ex.evalBool(env, c.Expr))
+		ex.Assumed["type "+tn+": "+c.Text] = true
 	}
 }
 
